@@ -27,6 +27,11 @@ macro_rules! deserialize_num {
             let text: &str = self.content.as_ref();
             match text.parse() {
                 Ok(number) => visitor.$visit(number),
+                // Not a number as written, but it can be one when the references are resolved
+                Err(_) if self.escaped && text.contains('&') => match unescape(text)?.parse() {
+                    Ok(number) => visitor.$visit(number),
+                    Err(_) => self.deserialize_str(visitor),
+                },
                 // Not a number: give the visitor the string, unescaped if necessary
                 Err(_) => self.deserialize_str(visitor),
             }
@@ -150,6 +155,12 @@ impl<'de, 'a> Deserializer<'de> for AtomicDeserializer<'de, 'a> {
         let text: &str = self.content.as_ref();
         match text {
             "1" | "true" | "0" | "false" => self.content.deserialize_bool(visitor),
+            // Not a boolean as written, but it can be one when the references are resolved
+            _ if self.escaped && text.contains('&') => match unescape(text)?.as_ref() {
+                "1" | "true" => visitor.visit_bool(true),
+                "0" | "false" => visitor.visit_bool(false),
+                _ => self.deserialize_str(visitor),
+            },
             // Not a boolean: give the visitor the string, unescaped if necessary
             _ => self.deserialize_str(visitor),
         }
